@@ -129,7 +129,7 @@ def decode_json_hook_extended(obj: dict) -> Any:
 def dumps(obj: Any, extra_types: str = EXTRA_TYPES_NONE, **kwargs) -> str:
     # Treat primitive types separately to gain just a bit of performance
     if isinstance(obj, str):
-        return '"' + obj + '"'
+        return json.dumps(obj)
     elif isinstance(obj, bool):
         return ['false', 'true'][obj]
     elif isinstance(obj, (int, float)):
